@@ -466,9 +466,9 @@ impl Ev {
     }
     fn parse(s: &str, fam: Fam) -> Option<Ev> {
         let w: Vec<&str> = s.split(' ').collect();
-        if w.first() == Some(&"deliver") && w.len() == 5 {
+        if w.first() == Some(&"deliver") && w.len() == 4 {
             let p = w[1].strip_prefix("value#")?.parse().ok()?;
-            let dst = w[4].strip_prefix('r')?.parse::<usize>().ok()?.checked_sub(1)?;
+            let dst = w[3].strip_prefix('r')?.parse::<usize>().ok()?.checked_sub(1)?;
             return Some(Ev::Deliver { p, dst });
         }
         if w.len() < 3 {
@@ -1458,7 +1458,7 @@ fn main() {
         let pair_rows: Vec<Vec<(String, RV)>> = par::par_map(chunk, |_, &b| {
             (0..n3)
                 .map(|c| {
-                    // a panic here is met again (and reported) in the triple loop
+                    // a panic here is reported by the pair sweep above (R3 is a subset of R2)
                     let m = merge_guard(vals2[pos3[b]], vals2[pos3[c]]).unwrap_or_else(|_| vals2[pos3[b]].clone());
                     (canon(&m), m)
                 })
